@@ -8,6 +8,15 @@ CHECKS = {
          "Every obligation = one op history over a 3-label universe with all weights, metadata values and the order/size filter as unbounded symbolic integers; CONFIRMED only when CrossHair exhausts the path tree. Bounded in structure (labels, history shape), unbounded in the numeric arguments.",
          "z3 unsat answers, CrossHair's builtin models, the 150-line reference model; listing order, metadata after re-insertion and the empty hyperedge left open (DESIGN 3/C01)", "3 C01"),
 }
+CHECKS["C02"] = ("bounded symbolic execution of the real DirectedHypergraph methods and directed degree measures (CrossHair+z3): op-history skeletons x symbolic weights/metadata/filter vs reference model",
+    "As C01 for (source set, target set) hyperedges: 12 ordered pairs over 3 labels, both roles observed separately; all numeric arguments unbounded symbolic integers; CONFIRMED = path tree exhausted.",
+    "z3, CrossHair builtin models, reference model; keep_edges=True and overlapping source/target outside (DESIGN 3/C02)", "3 C02")
+CHECKS["C03"] = ("bounded symbolic execution of the real TemporalHypergraph methods (CrossHair+z3): histories with symbolic weights/metadata/filter; windows (a,b), aggregate width w and rejected negative times as unbounded symbolic integers",
+    "Histories as C01 over records (time in {0,1,2,5}, node set); for every small reachable state get_edges(time_window=(a,b)), subhypergraph and aggregate(w) are decided for ALL integers a, b, w in one exhausted path tree.",
+    "z3, CrossHair builtin models, reference model; times are concrete (dictionary keys); aggregate on an edge-less object left open (DESIGN 3/C03)", "3 C03")
+CHECKS["C04"] = ("bounded symbolic execution of the real MultiplexHypergraph methods, aggregated_hypergraph and edge_overlap (CrossHair+z3) with symbolic per-layer weights",
+    "Histories as C01 over records (node set, layer in {L0,L1}) including the weighted batch with one node set in two layers; aggregation and overlap compared with per-node-set sums of symbolic weights.",
+    "z3, CrossHair builtin models, reference model; two layers; get_existing_layers compared leniently (DESIGN 3/C04)", "3 C04")
 NOT_YET = {}
 NA = {
  "C17": "HypergraphMT.fit / HySC.fit are in-place float numpy, LAPACK eig, sklearn KMeans and scipy.optimize on data-dependent masks with transcendental statements (EM ascent, log-likelihood agreement); nothing can be kept symbolic, so solver-based checking of the real code does not apply (DESIGN 3/C17).",
